@@ -253,6 +253,31 @@ Fixpoint list_bytes_eqb (a b : list bytes) : bool :=
    found among the records with its own text as the message, at the level of its [LEVEL] prefix (debug without one),
    wherever it stands in the stream *)
 Definition starts_with (c : N) (l : bytes) : bool := match l with d :: _ => N.eqb d c | [] => false end.
+(* ... and for hclog JSON: when every line fits the buffer (so that lines and parser verdicts line up one to one), a line
+   that encoding/json reads as an object with string @level (one of the five names) and string @message, and no
+   @timestamp, is found among the records at that level, with that message and with every other key among its fields *)
+Definition rec_matches (lv : level) (msg : bytes) (keys : list bytes) (r : V) : bool :=
+  match r with
+  | VL [VI lc; VB m; VL kvl; _] =>
+      Z.eqb lc (level_code lv) && bytes_eqb m msg &&
+      forallb (fun k => existsb (fun kv => match kv with VL [VB k'; _] => bytes_eqb k k' | _ => false end) kvl) keys
+  | _ => false
+  end.
+Definition json_rec_ok (recs : list V) (o : V) : bool :=
+  match dorc o with
+  | Some (JObj kvs, _, _) =>
+      match jget (bs "@level") kvs, jget (bs "@message") kvs, jget (bs "@timestamp") kvs with
+      | Some (JStr lv), Some (JStr m), None =>
+          match level_from_string lv with
+          | Some L =>
+              let keys := map fst (jdel (bs "@level") (jdel (bs "@message") kvs)) in
+              existsb (rec_matches L m keys) recs
+          | None => true
+          end
+      | _, _, _ => true
+      end
+  | _ => true
+  end.
 Definition oracle_stderr (P : sd_params) (inp obs : V) : option bool :=
   match inp, obs with
   | VL [VI b; VB s; VL orcs], VL [p; VB w; VL recs] =>
@@ -265,7 +290,9 @@ Definition oracle_stderr (P : sd_params) (inp obs : V) : option bool :=
         if Nat.ltb (List.length l + 2) n && negb (existsb (N.eqb 123) l) && no_trace
         then existsb (V_eqb (expected l)) recs else true in
       Some (negb p && list_bytes_eqb (lines w) (lines (normalize s)) &&
-            (p || (Nat.leb (List.length ls) (List.length recs) && forallb rec_ok ls)))
+            (p || (Nat.leb (List.length ls) (List.length recs) && forallb rec_ok ls)) &&
+            (p || negb (forallb (fun l => Nat.ltb (List.length l + 2) n) ls) || negb (Nat.eqb (List.length ls) (List.length orcs)) ||
+             forallb (json_rec_ok recs) orcs))
   | _, _ => None
   end.
 
